@@ -40,7 +40,7 @@ def eval_int(e: ast.AST, L: int, fn: ast.FunctionDef, depth: int = 0) -> Optiona
             return None
         return eval_int(e.body if t else e.orelse, L, fn, depth)
     if isinstance(e, ast.Name) and depth < 4:
-        vals = _assigned_values(e.id, fn, L)
+        vals = _assigned_values(e.id, fn, L, depth)
         if len(vals) == 1:
             return eval_int(vals[0], L, fn, depth + 1)
     return None
@@ -78,17 +78,17 @@ def eval_bool(e: ast.AST, L: int, fn: ast.FunctionDef, depth: int = 0) -> Option
     return None
 
 
-def _assigned_values(name: str, fn: ast.FunctionDef, L: Optional[int] = None) -> List[ast.AST]:
+def _assigned_values(name: str, fn: ast.FunctionDef, L: Optional[int] = None, depth: int = 0) -> List[ast.AST]:
     """Values assigned to `name` in fn.  With L given, assignments sitting under conditions that
     fold to false for len(p) == L are left out (if len(p) == 6: i = 2 else: i = 3)."""
     vals = _assigned_values_all(name, fn)
-    if L is None or len(vals) <= 1:
+    if L is None or len(vals) <= 1 or depth >= 3:
         return [v for v, _ in vals]
     live = []
     for v, node in vals:
         dead = False
         for t, truth in facts_at(node, fn):
-            b = eval_bool(t, L, fn, 3)
+            b = eval_bool(t, L, fn, depth + 2)
             if b is not None and b != truth:
                 dead = True
                 break
